@@ -365,15 +365,21 @@ func xmlBlocks(s, tag string) []string {
 	}
 }
 
-func (s *Sess) Copy(sb, sk, b, k string) Resp {
+func (s *Sess) Copy(sb, sk, b, k string) Resp { return s.CopyWith(sb, sk, b, k, nil) }
+
+// CopyWith: a copy whose request carries metadata headers of its own (they win over the source's)
+func (s *Sess) CopyWith(sb, sk, b, k string, m []KV) Resp {
 	src := "/" + sb + "/" + queryEscape(sk)
-	r := do(s.h, Req{Method: "PUT", Path: "/" + pathEscape(b) + "/" + pathEscape(k), Body: []byte{},
-		Header: [][2]string{{"X-Amz-Copy-Source", src}}})
+	hdr := [][2]string{{"X-Amz-Copy-Source", src}}
+	for _, kv := range m {
+		hdr = append(hdr, [2]string{kv.K, kv.V})
+	}
+	r := do(s.h, Req{Method: "PUT", Path: "/" + pathEscape(b) + "/" + pathEscape(k), Body: []byte{}, Header: hdr})
 	et := ""
 	if e := xmlAll(string(r.Body), "ETag"); len(e) > 0 {
 		et = e[0]
 	}
-	s.emitOp("copy", []string{hs(sb), hs(sk), hs(b), hs(k)}, obsT{r: r, etag: et})
+	s.emitOp("copy", []string{hs(sb), hs(sk), hs(b), hs(k), metaArg(m)}, obsT{r: r, etag: et})
 	return r
 }
 
@@ -394,6 +400,7 @@ type ListReq struct {
 	MaxKeys                       int // <0 = absent
 	V2                            bool
 	StartAfter                    bool // V2: send marker as start-after instead of continuation-token
+	AlsoStartAfter                string // V2 with a continuation token: a start-after sent along with it (as SDK paginators do); the token wins
 }
 
 type ListResp struct {
@@ -422,6 +429,9 @@ func (s *Sess) List(q ListReq) ListResp {
 			ps = append(ps, "start-after="+queryEscape(q.Marker))
 		} else {
 			ps = append(ps, "continuation-token="+queryEscape(base64.URLEncoding.EncodeToString([]byte(q.Marker))))
+			if q.AlsoStartAfter != "" {
+				ps = append(ps, "start-after="+queryEscape(q.AlsoStartAfter))
+			}
 		}
 	}
 	maxk := 1000
